@@ -425,6 +425,22 @@ func join(a, b *State) *State {
 			}
 		}
 	}
+	// memory cells holding different integers: merge through a fresh term too
+	mergedCells := map[cellKey]AV{}
+	for k, v := range a.cells {
+		w, ok := b.cells[k]
+		if !ok || sameAV(v, w) {
+			continue
+		}
+		if x, isI := v.(AInt); isI {
+			if y, isI := w.(AInt); isI {
+				t := newTerm("j.cell" + k.path)
+				a.addEQ(tvar(t).sub(x.l))
+				b.addEQ(tvar(t).sub(y.l))
+				mergedCells[k] = AInt{tvar(t)}
+			}
+		}
+	}
 	// project each side onto the terms the other side also constrains, so that
 	// implied bounds on shared terms become explicit before the weak join
 	ta, tb := termSet(a.cons), termSet(b.cons)
@@ -469,7 +485,7 @@ func join(a, b *State) *State {
 	half(b.cons, a.cons, keysA)
 	// template candidates: the weak join only finds bounds that one side
 	// states explicitly; sign bounds of the terms on which the sides differ
-	// (t >= 0, t >= -1) are tried as well, since both sides often imply them
+	// (t >= 1, t >= 0, t >= -1) are tried as well, since both sides often imply them
 	// through different constraints.
 	diff := map[Term]bool{}
 	for _, c := range a.cons {
@@ -487,7 +503,7 @@ func join(a, b *State) *State {
 		}
 	}
 	for t := range diff {
-		for _, k := range []int64{0, -1} {
+		for _, k := range []int64{1, 0, -1} {
 			cand := tvar(t).scale(-1).addK(k) // -t + k <= 0  <=>  t >= k
 			if entailsLE(a.cons, cand) && entailsLE(b.cons, cand) {
 				r.cons = append(r.cons, Con{l: cand})
@@ -535,6 +551,9 @@ func join(a, b *State) *State {
 		if w, ok := b.cells[k]; ok && sameAV(v, w) {
 			r.cells[k] = v
 		}
+	}
+	for k, v := range mergedCells {
+		r.cells[k] = v
 	}
 	return r
 }
